@@ -30,7 +30,13 @@ def node_of(m, name_upper):
             m._vf_nodes = cache
         except Exception:  # noqa
             pass
-    return cache[1].get(name_upper)
+    hit = cache[1].get(name_upper)
+    if hit is None and '!' not in name_upper:
+        # a defined name of a model loaded from files is scoped to its workbook: '[book.xlsx]'!NAME
+        cands = [k for u, k in cache[1].items() if u.endswith("]'!" + name_upper)]
+        if len(cands) == 1:
+            hit = cands[0]
+    return hit
 
 
 def target_id(spec, ov):
@@ -41,10 +47,14 @@ def target_id(spec, ov):
         return spec['names'][ov[1]]['name'].upper()
     if kind == 'rect':
         return G.rect_id(spec, tuple(ov[1]))
+    if kind == 'fname':
+        return spec['fnames'][ov[1]]['name'].upper()
     raise ValueError(kind)
 
 
 def target_rect(spec, ov):
+    if ov[0] == 'fname':
+        return (-1, -1, 0, 0, -1, -1)  # a formula-defined name covers no cell
     if ov[0] == 'cell':
         b, s, r, c = ov[1]
         return (b, s, r, c, r, c)
@@ -54,6 +64,8 @@ def target_rect(spec, ov):
 
 
 def repo_value(spec, ov):
+    if ov[0] == 'fname':
+        return sut.to_repo(W.const(ov[2]))
     if ov[0] == 'cell':
         return sut.override_value(W.const(ov[2]))
     rows = ov[2]
@@ -76,6 +88,8 @@ def to_cells(spec, ovs):
     """Cell-level overrides for xlref.wb.evaluate (later overrides win)."""
     out = {}
     for ov in ovs:
+        if ov[0] == 'fname':
+            continue
         b, s, r1, c1, r2, c2 = target_rect(spec, ov)
         if ov[0] == 'cell':
             out[(b, s, r1, c1)] = ov[2]
@@ -84,6 +98,11 @@ def to_cells(spec, ovs):
             for j, c in enumerate(range(c1, c2 + 1)):
                 out[(b, s, r, c)] = ov[2][i][j]
     return [[list(k), v] for k, v in out.items()]
+
+
+def to_fnames(spec, ovs):
+    """Values supplied for formula-defined names: {index: value} for xlref.wb.evaluate(fname_over=...)."""
+    return {ov[1]: ov[2] for ov in ovs if ov[0] == 'fname'}
 
 
 def array_cells(spec):
@@ -160,6 +179,7 @@ def overrides(draw, spec, max_n=3, kinds=('cell', 'formula', 'name', 'rect'), va
         'formula': [c for c in cells if 'f' in c],
         'name': [i for i, nm in enumerate(spec.get('names', [])) if ok(tuple(nm['rect']))],
         'rect': [r for r in referenced_rects(spec) if ok(r)],
+        'fname': list(range(len(spec.get('fnames', [])))),
     }
     avail = [k for k in kinds if elig[k]]
     used = set()
@@ -179,6 +199,13 @@ def overrides(draw, spec, max_n=3, kinds=('cell', 'formula', 'name', 'rect'), va
         kind = draw(st.sampled_from(avail))
         if kind in ('cell', 'formula'):
             ov = ['cell', list(draw(st.sampled_from(elig[kind]))['at']), draw(values)]
+        elif kind == 'fname':
+            i = draw(st.sampled_from(elig['fname']))
+            if ('fname', i) in used:
+                continue
+            used.add(('fname', i))
+            out.append(['fname', i, draw(nv)])
+            continue
         elif kind == 'name':
             i = draw(st.sampled_from(elig['name']))
             b, s, r1, c1, r2, c2 = spec['names'][i]['rect']
@@ -204,6 +231,9 @@ def ov_labels(spec, ovs):
     errconst = {tuple(c['at']) for c in spec['cells'] if 'f' not in c and isinstance(c['v'], list)}
     names = spec.get('names', [])
     for ov in ovs:
+        if ov[0] == 'fname':
+            lb.add('ov:formula-name')
+            continue
         if ov[0] == 'cell':
             lb.add('ov:formula-cell' if tuple(ov[1]) in forms else 'ov:const-cell')
             continue
